@@ -68,6 +68,7 @@ func zzH08d() {
 	} else {
 		conn.gateUnicast = false
 	}
+	zzFireAfterFuncs() // runtime timers the advertiser left armed fire now
 	zzWaitIdle()
 	zzAssert(len(conn.writes) == writesAtReturn, "nothing-transmitted-after-run-returned")
 	finals := 0
